@@ -42,7 +42,21 @@ func verifMarkerAt(body string, i int) bool {
 // least in-window position where a marker starts, or -1.
 func verifC20Index(n int, alpha int) {
 	alphabets := []string{"</hHeEaAdDx", "<lLiInNkKsStTyYx", "<sScCrRiIpPtTx/"}
-	body := verifString("body", n, alphabets[alpha])
+	verifC20IndexBody(verifString("body", n, alphabets[alpha]), n)
+}
+
+// verifC20IndexAny: the same for a body of n arbitrary 7-bit bytes (control characters
+// included): only the markers themselves, in either letter case, are markers.
+func verifC20IndexAny(n int) {
+	b := make([]byte, n)
+	for i := range b {
+		b[i] = verifU8(vn("body", i, ""))
+		verifAssume(b[i] < 0x80)
+	}
+	verifC20IndexBody(string(b), n)
+}
+
+func verifC20IndexBody(body string, n int) {
 	got := findBodyInjectionIndex(body)
 	want := -1
 	for i := n - 1; i >= 0; i-- {
